@@ -90,6 +90,9 @@ def _build_model(cfg, build_seed):
     ctor = dict(cfg.get('ctor', {}))
     cs = cost_spec(cfg['method'], cfg['cost'])
     use_example = ctor.pop('input_example', False)
+    if 'exclude_types' in ctor:
+        tmap = {'conv': (nn.Conv1d, nn.Conv2d), 'linear': (nn.Linear,)}
+        ctor['exclude_types'] = tuple(t for k in ctor['exclude_types'] for t in tmap[k])
     kw = {'input_example': torch.rand((1,) + shape)} if use_example else {'input_shape': shape}
     if cfg['method'] == 'pit':
         return PIT(net, cost=cs, **kw, **ctor)
